@@ -160,6 +160,39 @@ def collisions(tier):
     return out
 
 
+WRAP_PROP = "inner-val"   # kebab-case: the wrapper needs a wire-key map of its own
+WRAPS = ("obj", "arr", "map", "opt-obj")
+
+
+def nested(tier):
+    """every field kind one level further down: a wrapper model that holds the single-field model through a reference, an array of
+    references, a map of references, and an optional reference (the inner field keeps a renamed wire key and is optional, so every
+    instance of its menu - absent included - appears inside a list element and a map value)"""
+    kinds = REDUCED_KINDS if tier == "quick" else list(KINDS)
+    out = []
+    for k in kinds:
+        for w in WRAPS:
+            for req in ((False,) if tier == "quick" else (False, True)):
+                c = single(k, "innerField", req, False)
+                c["wrap"] = w
+                out.append(c)
+    return out
+
+
+def root_names(case):
+    return [WRAP_PROP] if case.get("wrap") else [f["name"] for f in case["fields"]]
+
+
+def wrapper_schema(case, inner_name):
+    ref = {"$ref": f"#/components/schemas/{inner_name}"}
+    w = case["wrap"]
+    prop = {"obj": ref, "opt-obj": ref, "arr": {"type": "array", "items": ref}, "map": {"type": "object", "additionalProperties": ref}}[w]
+    s = {"type": "object", "properties": {WRAP_PROP: prop, "tag": {"type": "string"}}}
+    if w != "opt-obj":
+        s["required"] = [WRAP_PROP]
+    return s
+
+
 def model_schema(case):
     props = {}
     req = []
@@ -185,16 +218,32 @@ def pack_doc(cases, prefix="M"):
 
     schemas.update(copy.deepcopy(DISC_TARGETS))
     for i, c in enumerate(cases):
-        schemas[f"{prefix}{i}"] = model_schema(c)
+        if c.get("wrap"):
+            schemas[f"{prefix}{i}Inner"] = model_schema(c)
+            schemas[f"{prefix}{i}"] = wrapper_schema(c, f"{prefix}{i}Inner")
+        else:
+            schemas[f"{prefix}{i}"] = model_schema(c)
     return {"openapi": "3.0.3", "info": {"title": "F", "version": "1"}, "paths": {}, "components": {"schemas": schemas}}
 
 
 def describe(case):
+    if case.get("wrap"):
+        return f"wrap:{case['wrap']}" + describe({"fields": case["fields"]})
     return "{" + ", ".join(f"{f['name']}:{f['kind']}{'!' if f['required'] else ''}{'=d' if f.get('default') else ''}" for f in case["fields"]) + "}"
 
 
 def instances(case):
     """every combination of per-field {absent (if optional), each menu value}; <= 4^k documents"""
+    if case.get("wrap"):
+        inner = instances({"fields": case["fields"]})
+        w = case["wrap"]
+        if w == "obj":
+            return [{WRAP_PROP: d} for d in inner]
+        if w == "opt-obj":
+            return [{"tag": "t"}] + [{WRAP_PROP: d, "tag": "t"} for d in inner]
+        if w == "arr":
+            return [{WRAP_PROP: []}] + [{WRAP_PROP: [d]} for d in inner] + [{WRAP_PROP: list(inner)}]
+        return [{WRAP_PROP: {}}] + [{WRAP_PROP: {"k": d}} for d in inner] + [{WRAP_PROP: {f"k-{j}": d for j, d in enumerate(inner)}}]
     per = []
     for f in case["fields"]:
         vals = [("v", v) for v in KINDS[f["kind"]][2]]
